@@ -19,10 +19,14 @@
 (***************************************************************************)
 EXTENDS Integers, Sequences, FiniteSets, TLC
 CONSTANTS Callers,          \* 1..n
-          ConnStates,       \* subset of {"up", "absent", "broken"} the scenario may start in
+          ConnStates,       \* subset of {"up", "absent", "broken", "closing"} the scenario may start in
+                            \* (broken: the peer reset the connection, writes fail; closing: the peer closed its side, the receiver has seen the end of
+                            \*  the stream but has not deregistered the connection yet: writes still succeed, nothing is answered)
           MaxReplies, LeakOnSendError, RemoveOnTimeout, MatchCreation,
           OtherPeer,        \* TRUE: the node also has a connection to a second peer, which may go down at any time
           ClearOnAnyDisconnect,  \* deviation (FALSE in the code): the end of ANY connection's receiver empties the node-wide table
+          PeerMayClose,     \* TRUE: the peer may close the connection in mid-behaviour (PeerCloses) and the receiver deregister it (Deregister)
+          LeakIfGoneAtTimeout,   \* deviation (FALSE in the code): a call that times out after its connection was deregistered keeps its table entry
           SeqCallers        \* TRUE: generator configurations in which caller c starts only after every caller below c has returned
 VARIABLES pc, rid, table, conn, wire, inbox, result, nextRid, replies, delivered, hist,
           otherUp     \* the connection to the second peer is up
@@ -33,10 +37,11 @@ Stale(r) == r + 50     \* the reply pid of call r with the creation of an earlie
 IsStale(a) == a > 50 /\ a < Stray
 Key(a) == IF IsStale(a) /\ ~MatchCreation THEN a - 50 ELSE a     \* what the receiver looks up in the table
 R(k, r) == [k |-> k, r |-> r]
+ConnCode(s) == CASE s = "up" -> 0 [] s = "absent" -> 1 [] s = "broken" -> 2 [] s = "closing" -> 3
 Init == /\ pc = [c \in Callers |-> "idle"] /\ rid = [c \in Callers |-> None] /\ table = {}
         /\ conn \in ConnStates /\ wire = {} /\ inbox = <<>>
         /\ result = [c \in Callers |-> R("none", 0)] /\ nextRid = 1 /\ replies = 0
-        /\ delivered = [r \in 1..Cardinality(Callers) |-> 0] /\ hist = <<>> /\ otherUp = OtherPeer
+        /\ delivered = [r \in 1..Cardinality(Callers) |-> 0] /\ hist = << <<"start", ConnCode(conn)>> >> /\ otherUp = OtherPeer
 Go(c, from, to) == pc[c] = from /\ pc' = [pc EXCEPT ![c] = to]
 H(a, x) == hist' = Append(hist, <<a, x>>)
 Alloc(c)  == Go(c, "idle", "allocated") /\ (SeqCallers => \A d \in Callers : d < c => pc[d] = "returned") /\ rid' = [rid EXCEPT ![c] = nextRid] /\ nextRid' = nextRid + 1 /\ H("alloc", c)
@@ -46,7 +51,7 @@ Insert(c) == Go(c, "allocated", "inserted") /\ table' = table \cup {rid[c]} /\ H
 NoConn(c) == Go(c, "inserted", "returned") /\ conn = "absent" /\ table' = table \ {rid[c]}
              /\ result' = [result EXCEPT ![c] = R("not_connected", 0)] /\ H("send", c)
              /\ UNCHANGED <<rid, conn, wire, inbox, nextRid, replies, delivered>>
-SendOk(c) == Go(c, "inserted", "awaiting") /\ conn = "up" /\ wire' = wire \cup {rid[c]} /\ H("send", c)
+SendOk(c) == Go(c, "inserted", "awaiting") /\ conn \in {"up", "closing"} /\ wire' = wire \cup {rid[c]} /\ H("send", c)
              /\ UNCHANGED <<rid, table, conn, inbox, result, nextRid, replies, delivered>>
 SendFail(c) == Go(c, "inserted", "returned") /\ conn = "broken"
              /\ table' = (IF LeakOnSendError THEN table ELSE table \ {rid[c]})
@@ -55,7 +60,7 @@ SendFail(c) == Go(c, "inserted", "returned") /\ conn = "broken"
 Timeout(c) == Go(c, "awaiting", "timedout") /\ result[c].k = "none" /\ H("timeout", c)
              /\ UNCHANGED <<rid, table, conn, wire, inbox, result, nextRid, replies, delivered>>
 \* a reply handed over after the timer fired but before the caller looks again is lost to the caller
-Cleanup(c) == Go(c, "timedout", "returned") /\ table' = (IF RemoveOnTimeout THEN table \ {rid[c]} ELSE table)
+Cleanup(c) == Go(c, "timedout", "returned") /\ table' = (IF RemoveOnTimeout /\ ~(LeakIfGoneAtTimeout /\ conn = "absent") THEN table \ {rid[c]} ELSE table)
              /\ result' = [result EXCEPT ![c] = R("timeout", 0)] /\ H("cleanup", c)
              /\ UNCHANGED <<rid, conn, wire, inbox, nextRid, replies, delivered>>
 GotReply(c) == Go(c, "awaiting", "returned") /\ result[c].k # "none" /\ H("wake", c)
@@ -80,7 +85,15 @@ OtherPeerCloses == /\ otherUp /\ otherUp' = FALSE /\ H("other_close", 0)
                            /\ result' = [c \in Callers |-> IF pc[c] = "awaiting" /\ result[c].k = "none" THEN R("cancelled", 0) ELSE result[c]]
                       ELSE UNCHANGED <<table, result>>
                    /\ UNCHANGED <<pc, rid, conn, wire, inbox, nextRid, replies, delivered>>
-Next0 == \/ \E c \in Callers : Alloc(c) \/ Insert(c) \/ NoConn(c) \/ SendOk(c) \/ SendFail(c) \/ Timeout(c) \/ Cleanup(c) \/ GotReply(c)
+\* the peer closes its side (everything it sent has been routed): the receiver sees the end of the stream and is on its way to
+\* deregistering the connection; until it does, callers still find the connection and their requests are written without error
+PeerCloses == /\ PeerMayClose /\ conn = "up" /\ inbox = <<>> /\ conn' = "closing" /\ H("peer_close", 0)
+              /\ UNCHANGED <<pc, rid, table, wire, inbox, result, nextRid, replies, delivered>>
+\* the receiver task deregisters the connection (connections.remove); calls in flight on it are left to their timers
+Deregister == /\ PeerMayClose /\ conn \in {"closing", "broken"} /\ conn' = "absent" /\ H("deregister", 0)
+              /\ UNCHANGED <<pc, rid, table, wire, inbox, result, nextRid, replies, delivered>>
+Next0 == \/ PeerCloses \/ Deregister
+        \/ \E c \in Callers : Alloc(c) \/ Insert(c) \/ NoConn(c) \/ SendOk(c) \/ SendFail(c) \/ Timeout(c) \/ Cleanup(c) \/ GotReply(c)
         \/ \E r \in wire \cup {Stray} \cup {Stale(w) : w \in wire} : PeerReply(r)
         \/ Route
 Next == (Next0 /\ UNCHANGED otherUp) \/ OtherPeerCloses
